@@ -56,3 +56,69 @@ def register(R: Registry):
         ensures=[("mapping-is-the-kept-ids-in-order", post("mapping")), ("new-ids-are-positions", post("ids")),
                  ("parents-remapped-roots-kept", post("pids")), ("outputs-are-fresh", post("fresh"))],
     )
+
+
+# =========================================================================== propagate_removal (traverse client rule)
+def register_propagate(R):
+    from contracts.C04 import depth
+    from pyvc.traverse_rule import Rule
+
+    I, B = z3.IntSort(), z3.BoolSort()
+    Rm = z3.Function("Rm", I, B)   # ghost: node is marked, or lies below a marked node (least solution on a well-formed table)
+
+    def setup(S):
+        n = S.int("n")
+        S.assume(n.z >= 1)
+        new_ids, pids = S.arr("int", n=n, name="new_ids"), S.arr("int", n=n, name="pids")
+        pids.frozen = True  # only the id array may be written (the function documents that it marks in place)
+        i = z3.Int("i_pr")
+        P, A = pids.arr, new_ids.arr
+        R_ = lambda t: z3.And(t >= 0, t < n.z)
+        # well-formed parent table (the marks live in the id array, so ids themselves are not positions here)
+        S.assume(z3.Select(P, 0) == -1)
+        S.assume(z3.ForAll([i], z3.Implies(z3.And(i > 0, i < n.z), R_(z3.Select(P, i)))))
+        S.assume(depth(0) == 0)
+        S.assume(z3.ForAll([i], z3.Implies(z3.And(i > 0, i < n.z), z3.And(depth(i) == depth(z3.Select(P, i)) + 1, depth(i) > 0))))
+        # ghost definition of the removal closure over the ENTRY marks
+        S.assume(z3.ForAll([i], z3.Implies(R_(i), Rm(i) == z3.Or(z3.Select(A, i) == REMOVAL, z3.And(z3.Select(P, i) >= 0, Rm(z3.Select(P, i)))))))
+        return dict(topology=(new_ids, pids))
+
+    def J(E, v, ENT, LEFT, ctx):
+        cur, old = v["new_ids"].arr, E.top_old["topology"][0].arr
+        x = z3.Int(fresh_name("x"))
+        return z3.ForAll([x], z3.Implies(ctx.R(x), z3.If(z3.Select(ENT, x), z3.And((z3.Select(cur, x) == REMOVAL) == Rm(x), z3.Implies(z3.Not(Rm(x)), z3.Select(cur, x) == z3.Select(old, x))),
+                                                         z3.Select(cur, x) == z3.Select(old, x))))
+
+    def Qe(E, v, x, val, ctx):
+        return to_z3(E.truth(val), "bool") == Rm(x)
+
+    def post(which):
+        def f(E, v, o):
+            new_ids2, pids2 = v["result"]
+            ids0, pids0 = o["topology"]
+            n = ids0.nz()
+            x = z3.Int(fresh_name("x"))
+            R_ = lambda t: z3.And(t >= 0, t < n)
+            if which == "marked-exactly-the-removal-closure":
+                return z3.And(new_ids2.nz() == n, z3.ForAll([x], z3.Implies(R_(x), (new_ids2.get(x).z == REMOVAL) == Rm(x))))
+            if which == "survivors-keep-their-id":
+                return z3.ForAll([x], z3.Implies(z3.And(R_(x), z3.Not(Rm(x))), new_ids2.get(x).z == ids0.get(x).z))
+            if which == "parents-returned-as-a-fresh-equal-copy":
+                return z3.And(pids2.uid not in E.entry_uids, pids2.nz() == n, z3.ForAll([x], z3.Implies(R_(x), pids2.get(x).z == pids0.get(x).z)))
+            if which == "marks-in-place":
+                return new_ids2 is v["topology"][0]
+
+        return f
+
+    R.add(f"{SUB}:propagate_removal", prop="C06", setup=setup,
+          ensures=[(nm, post(nm)) for nm in ("marked-exactly-the-removal-closure", "survivors-keep-their-id", "parents-returned-as-a-fresh-equal-copy", "marks-in-place")],
+          options=dict(traverse_rule=Rule(J, Qe=Qe, modifies=["new_ids"], enter_kind="bool")),
+          notes="the id array is marked IN PLACE (documented); callers must hand in a private copy — that is an obligation of to_subtree")
+
+
+_reg6 = register
+
+
+def register(R):  # noqa: F811
+    _reg6(R)
+    register_propagate(R)
